@@ -27,7 +27,8 @@ W = dict(once=0.75, nick=0.6, ref=0.3, formula=0.4, nested=0.06, friend=0.3, fwd
 def gen_case(rng):
     from .c04 import row_valued_in_once
     if rng.random() < 0.25:      # directed streams (DESIGN.md 11.4)
-        r, feats = rng.choice([S.stream_once_cluster, S.stream_once_hidden, S.stream_randref_nicks, S.stream_once_cluster_randref, S.stream_once_cluster_randref, S.stream_once_same_table_nick_order, S.stream_once_same_table_nick_order, S.stream_history_rows_hold_once_refs])(rng)
+        r, feats = rng.choice([S.stream_once_cluster, S.stream_once_hidden, S.stream_randref_nicks, S.stream_once_cluster_randref, S.stream_once_cluster_randref, S.stream_once_same_table_nick_order, S.stream_once_same_table_nick_order, S.stream_history_rows_hold_once_refs,
+                                S.stream_once_nick_like_once_table, S.stream_once_nick_like_once_table, S.stream_randref_hidden_child])(rng)
     else:
         for _ in range(50):
             r, feats = S.gen_recipe(rng, W)
